@@ -466,8 +466,8 @@ theorem notify_settles {R} {cfg : Cfg} {reg : Reg} {ctx : Ctx} (hg : RegGood H R
           have hga := hg1.agood a hm
           split
           · simp
-          · have hmem : (anotify H P ctx a).1 ∈ setAmp reg1.amps (anotify H P ctx a).1 :=
-              setAmp_self hm (anotify_hash (H := H) (P := P)).symm
+          · have hmem : (anotify H P (!cfg.sql) ctx a).1 ∈ setAmp reg1.amps (anotify H P (!cfg.sql) ctx a).1 :=
+              setAmp_self hm (anotify_hash (H := H) (P := P) (drop := !cfg.sql)).symm
             refine ⟨?_, ?_⟩
             · intro kind p ht hrep
               simp at hrep
@@ -576,26 +576,29 @@ theorem setInv_mono {invs : List Invoice} (hn : (invs.map (·.hash)).Nodup) {inv
     unfold setInv
     exact List.mem_map.mpr ⟨i, hi, by simp [c]⟩
 
-theorem setAmp_mono {amps : List AmpInv} (hn : (amps.map (·.hash)).Nodup) {a a' : AmpInv}
-    (hm : a ∈ amps) (hmono : AMono a a') :
-    ∀ i ∈ amps, ∃ i' ∈ setAmp amps a', AMono i i' := by
+theorem setAmp_mono {d : Bool} {amps : List AmpInv} (hn : (amps.map (·.hash)).Nodup) {a a' : AmpInv}
+    (hm : a ∈ amps) (hmono : AMonoD d a a') :
+    ∀ i ∈ amps, ∃ i' ∈ setAmp amps a', AMonoD d i i' := by
   intro i hi
   by_cases c : i.hash = a'.hash
   · have : i = a := ahash_inj hn hi hm (c.trans hmono.1.symm)
     subst this
     exact ⟨a', setAmp_self hm hmono.1, hmono⟩
-  · refine ⟨i, ?_, AMono.refl i⟩
+  · refine ⟨i, ?_, (AMono.refl i).toD d⟩
     unfold setAmp
     exact List.mem_map.mpr ⟨i, hi, by simp [c]⟩
 
-/-- one event: every invoice (plain or AMP) of the registry is still there, moved forward. -/
-theorem step_mono {R} {cfg : Cfg} {reg : Reg} {e : Event} (hg : RegGood H R reg) :
+/-- one event: every invoice (plain or AMP) of the registry is still there, moved forward; on the
+    kv store (`cfg.sql = false`) an AMP htlc that is no longer accepted may be forgotten
+    (`AMonoD`, `akeep`). -/
+theorem step_monoD {R} {cfg : Cfg} {reg : Reg} {e : Event} (hg : RegGood H R reg) :
     (∀ i ∈ reg.invs, ∃ i' ∈ (step H P cfg reg e).1.invs, Mono i i') ∧
-    (∀ a ∈ reg.amps, ∃ a' ∈ (step H P cfg reg e).1.amps, AMono a a') := by
+    (∀ a ∈ reg.amps, ∃ a' ∈ (step H P cfg reg e).1.amps, AMonoD (!cfg.sql) a a') := by
   have idI : ∀ (r : Reg), (∀ i ∈ reg.invs, i ∈ r.invs) → ∀ i ∈ reg.invs, ∃ i' ∈ r.invs, Mono i i' :=
     fun r hs i hi => ⟨i, hs i hi, Mono.refl i⟩
-  have idA : ∀ (r : Reg), (∀ i ∈ reg.amps, i ∈ r.amps) → ∀ a ∈ reg.amps, ∃ a' ∈ r.amps, AMono a a' :=
-    fun r hs i hi => ⟨i, hs i hi, AMono.refl i⟩
+  have idA : ∀ (r : Reg), (∀ i ∈ reg.amps, i ∈ r.amps) →
+      ∀ a ∈ reg.amps, ∃ a' ∈ r.amps, AMonoD (!cfg.sql) a a' :=
+    fun r hs i hi => ⟨i, hs i hi, (AMono.refl i).toD _⟩
   cases e with
   | addInvoice s =>
     simp only [step]
@@ -619,7 +622,7 @@ theorem step_mono {R} {cfg : Cfg} {reg : Reg} {e : Event} (hg : RegGood H R reg)
         cases hf : findHash reg1.invs h with
         | some inv =>
           simp only
-          refine ⟨?_, fun a ha => ⟨a, hsub.2 a ha, AMono.refl a⟩⟩
+          refine ⟨?_, fun a ha => ⟨a, hsub.2 a ha, (AMono.refl a).toD _⟩⟩
           intro i hi
           exact setInv_mono hg1.nodup (findHash_some hf).1 (inotify_mono (H := H) (ctx := ctx)) i (hsub.1 i hi)
         | none =>
@@ -633,13 +636,13 @@ theorem step_mono {R} {cfg : Cfg} {reg : Reg} {e : Event} (hg : RegGood H R reg)
             · refine ⟨fun i hi => ⟨i, hsub.1 i hi, Mono.refl i⟩, ?_⟩
               intro b hb
               exact setAmp_mono hg1.anodup (findAmp_some hfa).1
-                (anotify_mono (H := H) (P := P) (ctx := ctx)) b (hsub.2 b hb)
+                (anotify_monoD (H := H) (P := P) (drop := !cfg.sql) (ctx := ctx)) b (hsub.2 b hb)
   | settle p =>
     simp only [step]
     unfold settleHodl
     cases hf : findHash reg.invs (H p) with
     | some inv =>
-      refine ⟨?_, fun a ha => ⟨a, ha, AMono.refl a⟩⟩
+      refine ⟨?_, fun a ha => ⟨a, ha, (AMono.refl a).toD _⟩⟩
       intro i hi
       exact setInv_mono hg.nodup (findHash_some hf).1 (isettle_mono (H := H) (p := p)) i hi
     | none =>
@@ -651,7 +654,7 @@ theorem step_mono {R} {cfg : Cfg} {reg : Reg} {e : Event} (hg : RegGood H R reg)
     unfold cancel
     cases hf : findHash reg.invs h with
     | some inv =>
-      refine ⟨?_, fun a ha => ⟨a, ha, AMono.refl a⟩⟩
+      refine ⟨?_, fun a ha => ⟨a, ha, (AMono.refl a).toD _⟩⟩
       intro i hi
       exact setInv_mono hg.nodup (findHash_some hf).1 icancel_mono i hi
     | none =>
@@ -661,7 +664,7 @@ theorem step_mono {R} {cfg : Cfg} {reg : Reg} {e : Event} (hg : RegGood H R reg)
       | some a =>
         refine ⟨fun i hi => ⟨i, hi, Mono.refl i⟩, ?_⟩
         intro b hb
-        exact setAmp_mono hg.anodup (findAmp_some hfa).1 acancel_mono b hb
+        exact setAmp_mono hg.anodup (findAmp_some hfa).1 (acancel_mono.toD _) b hb
   | tick dt =>
     simp only [step]
     unfold tick
@@ -672,8 +675,20 @@ theorem step_mono {R} {cfg : Cfg} {reg : Reg} {e : Event} (hg : RegGood H R reg)
       rw [List.map_map]
       exact List.mem_map.mpr ⟨i, hi, rfl⟩
     · intro a ha
-      refine ⟨(atimeout cfg.hold (reg.now + dt) a).1, ?_, atimeout_mono⟩
+      refine ⟨(atimeout cfg.hold (reg.now + dt) a).1, ?_, atimeout_mono.toD _⟩
       rw [List.map_map]
       exact List.mem_map.mpr ⟨a, ha, rfl⟩
+
+/-- one event on the native SQL store: nothing is forgotten. -/
+theorem step_mono {R} {cfg : Cfg} {reg : Reg} {e : Event} (hg : RegGood H R reg)
+    (hsql : cfg.sql = true) :
+    (∀ i ∈ reg.invs, ∃ i' ∈ (step H P cfg reg e).1.invs, Mono i i') ∧
+    (∀ a ∈ reg.amps, ∃ a' ∈ (step H P cfg reg e).1.amps, AMono a a') := by
+  obtain ⟨h1, h2⟩ := step_monoD (P := P) (cfg := cfg) (e := e) hg
+  refine ⟨h1, ?_⟩
+  intro a ha
+  obtain ⟨a', hm, hd⟩ := h2 a ha
+  rw [hsql] at hd
+  exact ⟨a', hm, hd.mono⟩
 
 end LndModel.C15
